@@ -258,6 +258,11 @@ pub struct SimKnobs {
     /// (SanitizerCoverage trace-pc-guard hook); 0 = edges are not scheduling points
     #[serde(default)]
     pub edge_thin: u32,
+    /// every k-th ATOMIC operation executed by code generated in the parallel walrus build (its own, std::sync's
+    /// and dependency generics instantiated there) is a scheduling point, taken right BEFORE the operation
+    /// (ThreadSanitizer-ABI hook, tsanrt.rs); 0 = atomic operations are not scheduling points
+    #[serde(default)]
+    pub atomic_thin: u32,
 }
 
 #[derive(Serialize, Deserialize, Clone, Debug, PartialEq, Eq)]
